@@ -117,13 +117,15 @@ def spelling_cases():
     relative path): it must still be read once."""
     out = []
 
-    def case(name, main_inc, sub_inc=None, pre=None, reach=(0, 1, 2)):
+    def case(name, main_inc, sub_inc=None, pre=None, reach=(0, 1, 2), main="main.toml", relative=False):
         files = {"main.toml": file_doc(0, extra_global=BASE_GLOBAL, includes=main_inc),
                  "sub/f1.toml": file_doc(1, includes=sub_inc or []),
                  "f2.toml": file_doc(2)}
-        r = load_req(files, {"part": "include-graph", "mask": "spelling:" + name, "edges": [name], "reach": list(reach)})
+        r = load_req(files, {"part": "include-graph", "mask": "spelling:" + name, "edges": [name], "reach": list(reach)}, main=main)
         if pre:
             r["phases"][0]["pre"] = pre
+        if relative:
+            r["phases"][0]["config_relative"] = True
         out.append(r)
 
     case("dotdot-from-subdirectory", ["sub/f1.toml", "f2.toml"], ["../f2.toml"])
@@ -133,6 +135,12 @@ def spelling_cases():
     case("symlink-alias", ["f2.toml", "alias.toml", "sub/f1.toml"], pre=[{"op": "symlink", "path": "alias.toml", "target": "f2.toml"}])
     case("symlinked-directory", ["sub/f1.toml", "subalias/f1.toml", "f2.toml"], pre=[{"op": "symlink", "path": "subalias", "target": "sub"}])
     case("absolute-and-relative", ["@DIR@/f2.toml", "f2.toml", "./f2.toml", "sub/f1.toml"])
+    # the *main* file named in a non-canonical way on the command line, and reached again through the include graph
+    case("main-via-dotdot+cycle", ["sub/f1.toml", "f2.toml"], ["../main.toml"], main="sub/../main.toml")
+    case("main-via-symlink+cycle", ["sub/f1.toml", "f2.toml"], ["../main.toml"], main="mainalias.toml", pre=[{"op": "symlink", "path": "mainalias.toml", "target": "main.toml"}])
+    case("main-relative+cycle", ["sub/f1.toml", "f2.toml"], ["../main.toml"], relative=True)
+    case("main-relative+absolute-cycle", ["sub/f1.toml", "f2.toml"], ["@DIR@/main.toml"], relative=True)
+    case("main-via-dotdot+glob-matching-main", ["sub/f1.toml", "f2.toml", "mai[n].toml"], main="./sub/../main.toml")
     return out
 
 
@@ -312,7 +320,7 @@ def run(ctx):
     res = Result("exploration")
     res.rule = ("configurations generated from Python dictionaries and resolved independently: (1) all 2^3 presence patterns (certificate/endpoint/global) of renew_delay, "
                 "random_early_renew, file_name_format and the 2^2-1 of the directory, distinct values; (2) all 512 directed include graphs on 3 files (self-loops, cycles, "
-                "duplicates; relative, absolute, glob and ./ paths) plus 7 cases of one file under two spellings (.., sub-directory, symlinked file and directory), each file with its own endpoint, hook, account and certificate; (3) each of the 15 global options set in "
+                "duplicates; relative, absolute, glob and ./ paths) plus 12 cases of one file under two spellings (.., sub-directory, symlinked file and directory; the main file itself named through .., a symlink or a relative path and reached again by a cycle or a glob), each file with its own endpoint, hook, account and certificate; (3) each of the 15 global options set in "
                 "the main file / an included file / both / two included files in either order / nested; (4) 12 reference cases (dangling endpoint, account, hook, "
                 "group member, rate limit, duplicate certificate ids) with controls. Effective values are read back from MainEventLoop::new.")
     reqs = precedence_cases() + graph_cases(ctx.quick) + spelling_cases() + split_cases() + dangling_cases()
